@@ -219,7 +219,8 @@ class Parser:
                     continue
                 else:
                     out.append(defs.ActionToken(tok.pos))
-                    out.append(defs.TextToken(tok.pos, tok.txt))
+                    out.append(defs.TextToken(tok.pos, tok.txt,
+                                                pos_fix=tok.pos_fix))
             elif tok.txt == '$' or tok.txt == '\\(':
                 out += self.mathparser.expand_inline_math(buf, tok)
                 continue
@@ -493,16 +494,18 @@ class Parser:
     def expand_verb_env_token(self, tok):
         tok = copy.copy(tok)
         tok.environ = False
+        # NB: inside of a macro body, the token has a fixed position
+        end = tok.pos if tok.pos_fix else tok.pos + len(tok.txt)
         return [
                     defs.BeginToken(tok.pos, '\\begin'),
                     defs.SpecialToken(tok.pos, '{'),
                     defs.TextToken(tok.pos, 'verbatim'),
                     defs.SpecialToken(tok.pos, '}'),
                     tok,
-                    defs.EndToken(tok.pos + len(tok.txt), '\\end'),
-                    defs.SpecialToken(tok.pos + len(tok.txt), '{'),
-                    defs.TextToken(tok.pos + len(tok.txt), 'verbatim'),
-                    defs.SpecialToken(tok.pos + len(tok.txt), '}'),
+                    defs.EndToken(end, '\\end'),
+                    defs.SpecialToken(end, '{'),
+                    defs.TextToken(end, 'verbatim'),
+                    defs.SpecialToken(end, '}'),
         ]
 
     #   parse (skip) optional [...] after \\
@@ -602,13 +605,16 @@ class Parser:
                     t1.txt = ''
                 # in t2, we remove all till including the first newline
                 txt = t2.txt
+                # NB: a fixed position, e.g. from a macro body, stays the same
                 if '\n' in txt:
                     pos = txt.find('\n') + 1
                     t2.txt = txt[pos:]
-                    t2.pos += pos
+                    if not t2.pos_fix:
+                        t2.pos += pos
                 else:
                     t2.txt = ''
-                    t2.pos += len(txt)
+                    if not t2.pos_fix:
+                        t2.pos += len(txt)
                 buf = [t1] + lang_toks
                 tokens.append(eval(t2))
                 # NB: we deleted a line break
